@@ -36,15 +36,24 @@ Definition argmax_first (l : list Q) : option (nat * Q) :=
    maximum and the threshold, and between the maximum and the largest entry at another index *)
 Definition Qmin2 (a b : Q) : Q := if Qle_bool a b then a else b.
 Definition Qabs2 (a : Q) : Q := if Qle_bool 0 a then a else - a.
-Fixpoint max_except (skip i : nat) (acc : option Q) (l : list Q) : option Q :=
-  match l with
-  | [] => acc
-  | x :: r =>
-      let acc' := if Nat.eqb i skip then acc else match acc with None => Some x | Some a => Some (if Qltb a x then x else a) end in
-      max_except skip (S i) acc' r
+Fixpoint keys_eqb (a b : list Q) : bool :=
+  match a, b with
+  | [], [] => true
+  | x :: r, y :: t => Qeq_bool x y && keys_eqb r t
+  | _, _ => false
   end.
-Definition margin_of (thr : Q) (dq : list Q) (mb : nat) (mx : Q) : Q :=
-  match max_except mb O None dq with
+(* the largest entry among the slots whose INPUTS differ from those of the chosen slot: two slots with identical inputs
+   (same node-to-module sum, same module sum) get bitwise identical float gains, so their tie is decided by first-max in
+   the code exactly as in the model; only a (near-)tie with a slot of different inputs can flip under rounding *)
+Fixpoint max_other (kmb : list Q) (acc : option Q) (dq : list Q) (keys : list (list Q)) : option Q :=
+  match dq, keys with
+  | x :: r, k :: kr =>
+      let acc' := if keys_eqb k kmb then acc else match acc with None => Some x | Some a => Some (if Qltb a x then x else a) end in
+      max_other kmb acc' r kr
+  | _, _ => acc
+  end.
+Definition margin_of (thr : Q) (dq : list Q) (keys : list (list Q)) (mb : nat) (mx : Q) : Q :=
+  match max_other (nth mb keys []) None dq keys with
   | None => Qred (Qabs2 (mx - thr))
   | Some sec => Qred (Qmin2 (Qabs2 (mx - thr)) (mx - sec))
   end.
@@ -63,6 +72,7 @@ Variable thr : Q.                                   (* 1e-10 *)
 Variable maxit : option nat.                        (* 1000, or None when the routine has no `it` guard *)
 Variable gain : state -> nat -> nat -> Q.           (* the routine's gain formula, entry mb of the vector *)
 Variable move : state -> nat -> nat -> state.       (* the routine's bookkeeping update *)
+Variable skey : state -> nat -> nat -> list Q.      (* the state entries slot mb's gain is computed from (margin only) *)
 
 (* dq, after dq[ma] = 0 *)
 Definition dq_vec (st : state) (u : nat) : list Q :=
@@ -71,7 +81,10 @@ Definition dq_vec (st : state) (u : nat) : list Q :=
 Definition decide (st : state) (u : nat) : option nat * Q :=
   let dq := dq_vec st u in
   match argmax_first dq with
-  | Some (mb, mx) => if Qltb thr mx then (Some mb, margin_of thr dq mb mx) else (None, Qred (Qabs2 (mx - thr)))
+  | Some (mb, mx) =>
+      if Qltb thr mx
+      then (Some mb, margin_of thr dq (map (fun t => if Nat.eqb t (lab st u) then [] else skey st u t) (seq 0 N)) mb mx)
+      else (None, Qred (Qabs2 (mx - thr)))
   | None => (None, 0)
   end.
 Definition select (st : state) (u : nat) : option nat := fst (decide st u).
@@ -107,6 +120,11 @@ Fixpoint sweeps (it : nat) (st : state) (perms : list (list nat))
   end.
 End Select.
 
+(* the inputs of slot t of the gain vector, per family *)
+Definition key_und (st : state) (u t : nat) : list Q := [knm (ca st) u t; km (ca st) t].
+Definition key_two (st : state) (u t : nat) : list Q := [knm (ca st) u t; km (ca st) t; knm (cb st) u t; km (cb st) t].
+Definition key_B (st : state) (u t : nat) : list Q := [knm (ca st) u t].
+
 (* ---------- whole runs generated from the permutation stream ---------- *)
 (* levels (each: its sweeps, each: its visits), (number of permutations left over, outcome) *)
 Definition auto_t := (list (list (list visit)) * (nat * sweep_out))%type.
@@ -124,7 +142,7 @@ Fixpoint louvain_und_gen (fuel : nat) (thr : Q) (maxit : option nat) (g s : Q) (
       | _ :: _ =>
           let k := tabvQ n (colsum n W) in
           let st0 := mkst (tabv O n ident) (mkchan (tabQ n n W) k) chan0 in
-          let r := sweeps n thr maxit (gain_und W g s k) (move_und n W k) 1 st0 perms in
+          let r := sweeps n thr maxit (gain_und W g s k) (move_und n W k) key_und 1 st0 perms in
           let fin := snd (fst r) in
           match snd (snd r) with
           | SwDone =>
@@ -155,7 +173,7 @@ Fixpoint louvain_sign_gen (fuel : nat) (thr : Q) (maxit : option nat) (g s0 s1 d
           let kn0 := tabvQ n (colsum n W0) in
           let kn1 := tabvQ n (colsum n W1) in
           let st0 := mkst (tabv O n ident) (mkchan (tabQ n n W0) kn0) (mkchan (tabQ n n W1) kn1) in
-          let r := sweeps n thr maxit (gain_sign W0 W1 g s0 s1 d0 d1 kn0 kn1) (move_sign n W0 W1 kn0 kn1) 1 st0 perms in
+          let r := sweeps n thr maxit (gain_sign W0 W1 g s0 s1 d0 d1 kn0 kn1) (move_sign n W0 W1 kn0 kn1) key_two 1 st0 perms in
           let fin := snd (fst r) in
           match snd (snd r) with
           | SwDone =>
@@ -189,7 +207,7 @@ Fixpoint cl_gen (fuel : nat) (thr : Q) (maxit : option nat) (first : bool) (n : 
           let H := if first then tabvQ n (rowsum n hnm) else tabvQ n (colsum n B) in
           let Hm := if first then tabvQ n (colsum n hnm) else H in
           let st0 := mkst lab0 (mkchan hnm Hm) chan0 in
-          let r := sweeps n thr maxit (gain_B B) (move_B n B H) 1 st0 perms in
+          let r := sweeps n thr maxit (gain_B B) (move_B n B H) key_B 1 st0 perms in
           let fin := snd (fst r) in
           match snd (snd r) with
           | SwDone =>
@@ -220,7 +238,7 @@ Definition auto_finetune_und (rows : list (list Q)) (g thr : Q) (maxit : option 
   let lab0 := init_lab n ci in
   let s := stot n W in
   let ik := finetune_und_init n W lab0 in
-  one_level (sweeps n thr maxit (gain_und W g s (snd ik)) (move_und n W (snd ik)) 1 (fst ik) perms).
+  one_level (sweeps n thr maxit (gain_und W g s (snd ik)) (move_und n W (snd ik)) key_und 1 (fst ik) perms).
 Definition run_finetune_und_auto (rows : list (list Q)) (g thr : Q) (maxit : option nat) (ci : list Z) (perms : list (list nat)) : result_t :=
   run_finetune_und rows g ci (finetune_moves (auto_finetune_und rows g thr maxit ci perms)).
 
@@ -230,7 +248,7 @@ Definition auto_finetune_dir (rows : list (list Q)) (g thr : Q) (maxit : option 
   let s := stot n W in
   let ik := finetune_dir_init n W lab0 in
   let ko := fst (snd ik) in let ki := snd (snd ik) in
-  one_level (sweeps n thr maxit (gain_dir W g s ko ki) (move_dir false n W ko ki) 1 (fst ik) perms).
+  one_level (sweeps n thr maxit (gain_dir W g s ko ki) (move_dir false n W ko ki) key_two 1 (fst ik) perms).
 Definition run_finetune_dir_auto (rows : list (list Q)) (g thr : Q) (maxit : option nat) (ci : list Z) (perms : list (list nat)) : result_t :=
   run_finetune_dir rows g ci (finetune_moves (auto_finetune_dir rows g thr maxit ci perms)).
 
@@ -242,7 +260,7 @@ Definition auto_finetune_sign (rows : list (list Q)) (g thr : Q) (maxit : option
   let ik := sign_init n p lab0 in
   let kn0 := fst (snd ik) in let kn1 := snd (snd ik) in
   one_level (sweeps n thr maxit (gain_sign (sW0 p) (sW1 p) g (ss0 p) (ss1 p) (sd0 p) (sd1 p) kn0 kn1)
-                    (move_sign n (sW0 p) (sW1 p) kn0 kn1) 1 (fst ik) perms).
+                    (move_sign n (sW0 p) (sW1 p) kn0 kn1) key_two 1 (fst ik) perms).
 Definition run_finetune_sign_auto (rows : list (list Q)) (g thr : Q) (maxit : option nat) (qt : nat) (ci : list Z)
            (perms : list (list nat)) : result_t :=
   run_finetune_sign rows g qt ci (finetune_moves (auto_finetune_sign rows g thr maxit qt ci perms)).
